@@ -22,6 +22,26 @@ CHECK_RE = re.compile(
     r"^Check (\d+): (\S+)\n\s+- Status: (\w+)\n\s+- Description: \"(.*?)\"\n\s+- Location: (.*?)$", re.M | re.S)
 
 
+def _resolve_message(desc, loc):
+    """Kani prints a placeholder for assert! messages it considers runtime-formatted; recover the literal
+    from the harness source line the location points at."""
+    if "placeholder message" not in desc:
+        return desc
+    m = re.search(r"vh/([\w/]+\.rs):(\d+):", loc)
+    if not m:
+        return desc
+    try:
+        from . import meta
+        lines = open(os.path.join(meta.HARNESS_DIR, m.group(1))).read().split("\n")
+        chunk = " ".join(lines[int(m.group(2)) - 1: int(m.group(2)) + 3])
+        lit = re.findall(r'"((?:[^"\\]|\\.)*)"', chunk)
+        if lit:
+            return lit[0] if len(lit) == 1 or not lit[0].startswith("C") is False else lit[0]
+    except Exception:
+        pass
+    return desc
+
+
 def parse_log(text):
     r = {"checks": 0, "failed": [], "undetermined": [], "covers": [], "verdict": None,
          "cbmc_time_s": None, "unwind_fail": False, "stubs": []}
@@ -33,6 +53,7 @@ def parse_log(text):
             continue
         r["checks"] += 1
         if status == "FAILURE":
+            desc = _resolve_message(desc, loc)
             r["failed"].append({"name": name, "desc": desc, "loc": loc})
             if "unwinding assertion" in desc:
                 r["unwind_fail"] = True
